@@ -15,7 +15,16 @@
 #define	RETURN(_code)	do {						\
 		asn_dec_rval_t rval;					\
 		rval.code = _code;					\
-		if(opt_ctx) opt_ctx->step = step; /* Save context */	\
+		if(opt_ctx) {						\
+			opt_ctx->step = step; /* Save context */	\
+			if(_code == RC_OK) {				\
+				opt_ctx->context = 0;			\
+			} else {					\
+				/* ... and the state of the chain of tags */	\
+				opt_ctx->left = limit_len;		\
+				opt_ctx->context = expect_00_terminators;	\
+			}						\
+		}							\
 		if(_code == RC_OK || opt_ctx)				\
 			rval.consumed = consumed_myself;		\
 		else							\
@@ -76,6 +85,17 @@ ber_check_tags(const asn_codec_ctx_t *opt_codec_ctx,
 	int tlv_constr = -1;	/* If CHOICE, opt_tlv_form is not given */
 	int step = opt_ctx ? opt_ctx->step : 0;	/* Where we left previously */
 	int tagno;
+
+	if(opt_ctx && step > 0) {
+		/*
+		 * Restarted in the middle of the chain of tags:
+		 * restore what RETURN() has saved.
+		 */
+		limit_len = opt_ctx->left;
+		expect_00_terminators = opt_ctx->context;
+		if(limit_len >= 0 && (ssize_t)size > limit_len)
+			size = limit_len;
+	}
 
 	/*
 	 * Make sure we didn't exceed the maximum stack size.
